@@ -365,6 +365,9 @@ func registerIntrinsics(m *Machine) {
 			n := int64(len(fmt.Sprint(k)))
 			d := Text{W: m.IntC(0), N: m.IntC(n), NL: m.IntC(0), CUU: v, ID: m.textID(fmt.Sprintf("int:%d", k))}
 			m.Assumptions["strconv.AppendInt is only used to build the cursor-up escape sequence (its digits have no display width)"] = true
+			if m.MarkCUU {
+				d.SEQ, d.K = m.IntC(15), m.IntC(1)
+			}
 			return m.Concat(b, d)
 		}
 		d := m.FreshText("digits")
@@ -372,6 +375,9 @@ func registerIntrinsics(m *Machine) {
 		d.W = m.IntC(0) // only used inside the cursor-up escape sequence: no display width
 		m.Assumptions["strconv.AppendInt is only used to build the cursor-up escape sequence (its digits have no display width)"] = true
 		d.CUU = v
+		if m.MarkCUU {
+			d.SEQ, d.K = m.IntC(15), m.IntC(1)
+		}
 		return m.Concat(b, d)
 	})
 	I["strconv.AppendFloat"] = inline(func(m *Machine, it *Item, a []Value) Value {
